@@ -244,6 +244,19 @@ def build(tier, work, builder):
         for lm in re.finditer(r"^\s*(bool|int|int32_t|uint32_t|size_t)\s+(\w+)\s*(?:=[^;]*)?;", before, re.M):
             if re.search(r"\b%s\b" % re.escape(lm.group(2)), g["slice"].text) and lm.group(2) not in g["params"]:
                 locs.append("    %s %s; /* local of the enclosing function: arbitrary */\n" % (lm.group(1), lm.group(2)))
+        # the gate sits in a local lambda (a refactoring merged duplicated code): the lambda's expression parameter is the gate's
+        # subject under another name
+        fts = X.Source("<fn>", text=src.text[fn.start:fn.end])
+        rel = g["slice"].start - fn.start
+        for lm in re.finditer(r"\[[^\]]*\]\s*\(([^)]*)\)\s*(?:mutable\s*)?\{", fts.text):
+            b = lm.end() - 1
+            if fts.mask[lm.start()] != "c" or not (b < rel < fts.match_brace(b)):
+                continue
+            subj = re.findall(r"expression_t&?\s+(\w+)", g["params"])
+            for pm in re.finditer(r"(?:const\s+)?expression_t\s*&?\s*(\w+)", lm.group(1)):
+                pn = pm.group(1)
+                if subj and pn not in re.findall(r"\b(\w+)\b", g["params"]) and re.search(r"\b%s\b" % re.escape(pn), g["slice"].text):
+                    locs.append("    expression_t %s = %s; /* parameter of the enclosing lambda: the gate's subject */\n" % (pn, subj[-1]))
         defs.append(f"void TypeChecker::gate_{g['name']}({g['params']})\n{{\n" + "".join(locs) + "    for (int verif_once = 0; verif_once < 1; verif_once++) {\n"
                     + g["slice"].text + "\n    }\n}\n")
         setup = "    setup_X(changes, %d);\n" % (1 if g.get("array_node") else 0)
